@@ -1,4 +1,5 @@
 import SpecVerif.Proofs.C19
+import SpecVerif.Proofs.C19Hier
 /-!
 # C19 — lazy bootstrapping equals eager bootstrapping under every thread interleaving
 
@@ -278,5 +279,118 @@ example : eagerCore b0 =
     ⟨[.plain none, .plain (some 3)],
      some [⟨none, true, false, true⟩, ⟨some 3, false, true, false⟩],
      some [⟨none, true, false, true⟩, ⟨some 3, false, true, false⟩], [1, 3]⟩ := by decide
+
+/-! ## hierarchies: a lazily bootstrapped class with lazily bootstrapped ancestors
+
+`Model/C19Hier.lean`: a single-inheritance chain of decorated classes `K0 <- K1 <- …` (any length, any
+bodies: annotations, `attrs=` / `attrs_typed=` / `attrs_skip=`, class attributes that are `Attr(...)` /
+`dataclasses.field(...)` declarations or plain values, overrides of inherited attributes), `Hier.boot chain k`
+= a first use of class `k` (bootstraps the not yet bootstrapped ancestors first, root first, then reads
+their annotations / class attributes / metadata), `Hier.eagerN chain m` = `bootstrap=True` on the first
+`m` classes. Quantification: every chain, every sequence of first uses of any of its classes. -/
+
+/-- A first use of class `k` of a hierarchy whose first `m` classes are bootstrapped already (eagerly, or
+by earlier uses of them or of their subclasses) leaves exactly the hierarchy in which the first
+`max m (k+1)` classes were bootstrapped eagerly: every ancestor that was still lazy is bootstrapped
+before anything is read from it. -/
+theorem hier_first_use (chain : List Hier.HBody) (m k : Nat) (hm : m ≤ chain.length) :
+    Hier.boot chain k (Hier.eagerN chain m (Hier.initSt chain))
+      = Hier.eagerN chain (max m (k + 1)) (Hier.initSt chain) :=
+  Hier.boot_eagerN chain m k hm
+
+/-- Whatever the sequence of first uses (of the class itself, of a subclass first, of a parent first, of
+the same class repeatedly …), the hierarchy is the one in which a prefix of the chain — containing every
+class that was used — has been bootstrapped eagerly and the rest is untouched. -/
+theorem hier_any_trigger_order (chain : List Hier.HBody) (trigs : List Nat) (ht : ∀ k ∈ trigs, k < chain.length) :
+    ∃ m, m ≤ chain.length ∧ (∀ k ∈ trigs, k < m) ∧
+      Hier.runTrigs chain trigs (Hier.initSt chain) = Hier.eagerN chain m (Hier.initSt chain) := by
+  obtain ⟨m, _, h2, h3, h4⟩ := Hier.runTrigs_eagerN chain trigs 0 (Nat.zero_le _) ht
+  exact ⟨m, h2, h3, h4⟩
+
+/-- Class by class: after any sequence of first uses every bootstrapped class (metadata, own
+`__annotations__`, own class attributes, registered helpers) is EXACTLY the class of the sequential eager
+result, every other class is exactly as written, every class that was used is bootstrapped, and so are
+all ancestors of a bootstrapped class. -/
+theorem hier_class_eq_eager (chain : List Hier.HBody) (trigs : List Nat) (ht : ∀ k ∈ trigs, k < chain.length)
+    (j : Nat) :
+    let st := Hier.runTrigs chain trigs (Hier.initSt chain)
+    (Hier.booted st j = true → st[j]? = (Hier.eager chain)[j]?)
+      ∧ (Hier.booted st j = false → st[j]? = (Hier.initSt chain)[j]?)
+      ∧ (j ∈ trigs → Hier.booted st j = true)
+      ∧ (Hier.booted st j = true → ∀ i, i ≤ j → Hier.booted st i = true) := by
+  intro st
+  obtain ⟨m, hm, hin, heq⟩ := hier_any_trigger_order chain trigs ht
+  have hst : st = Hier.eagerN chain m (Hier.initSt chain) := heq
+  have hlen : (Hier.initSt chain).length = chain.length := by simp [Hier.initSt]
+  by_cases hj : j < m
+  · have hb : Hier.booted st j = true := by
+      rw [hst]; exact Hier.booted_eagerN_below chain m _ j (by omega) hj
+    refine ⟨fun _ => ?_, fun h => (by rw [hb] at h; cases h), fun _ => hb, fun _ i hi => ?_⟩
+    · rw [hst]
+      have := Hier.eagerN_below chain m (chain.length - m) (Hier.initSt chain) j hj
+      rw [show m + (chain.length - m) = chain.length by omega] at this
+      exact this.symm
+    · rw [hst]; exact Hier.booted_eagerN_below chain m _ i (by omega) (by omega)
+  · have hb : Hier.booted st j = false := by
+      rw [hst]; exact Hier.booted_eagerN_above chain m j (by omega)
+    refine ⟨fun h => (by rw [hb] at h; cases h), fun _ => ?_, fun h => ?_, fun h => (by rw [hb] at h; cases h)⟩
+    · rw [hst]; exact Hier.eagerN_above chain m _ j (by omega)
+    · have := hin j h; omega
+
+/-- The order of first uses is irrelevant: two histories of first uses of the same hierarchy agree on
+every class that both have bootstrapped (e.g. subclass first vs parent first vs eager). -/
+theorem hier_order_irrelevant (chain : List Hier.HBody) (t1 t2 : List Nat)
+    (h1 : ∀ k ∈ t1, k < chain.length) (h2 : ∀ k ∈ t2, k < chain.length) (j : Nat)
+    (b1 : Hier.booted (Hier.runTrigs chain t1 (Hier.initSt chain)) j = true)
+    (b2 : Hier.booted (Hier.runTrigs chain t2 (Hier.initSt chain)) j = true) :
+    (Hier.runTrigs chain t1 (Hier.initSt chain))[j]? = (Hier.runTrigs chain t2 (Hier.initSt chain))[j]? := by
+  rw [(hier_class_eq_eager chain t1 h1 j).1 b1, (hier_class_eq_eager chain t2 h2 j).1 b2]
+
+/-- `@spec_class(attrs_typed={"x": float}) class K0: x = 5` / `@spec_class(attrs=["x"]) class K1(K0): x = 9`
+(`x` = name 0, `float` = type 2): the child re-manages an attribute whose type the parent declared through the
+decorator only. -/
+def hTyped : List Hier.HBody :=
+  [⟨[], [(0, .plain (some 5))], [(0, 2)], none⟩, ⟨[], [(0, .plain (some 9))], [(0, 0)], none⟩]
+
+/-- `class K0: x: int = Attr(default=1, repr=False)` / `@spec_class(attrs=["x"]) class K1(K0): pass` -/
+def hDecl : List Hier.HBody :=
+  [⟨[(0, 1)], [(0, .attr ⟨some 1, false, false, true⟩)], [], none⟩, ⟨[], [], [(0, 0)], none⟩]
+
+/-- Why the type hints must be resolved AFTER the parents are bootstrapped (C19-r4s1): with
+`typing.get_type_hints` hoisted in front of the parents' bootstrap (`Stale.boot .hints`), a first use through
+the subclass reads the parent's `__annotations__` before the parent has written `x: float` into them — the
+child's `x` ends up typed `Any` (0), where the eager hierarchy (and the parent-first order, also of the
+hoisted code) has `float` (2). `hier_first_use` is sensitive to exactly that order. -/
+theorem hoisted_hints_stale :
+    Hier.Stale.boot .hints hTyped 1 (Hier.initSt hTyped) ≠ Hier.eager hTyped
+      ∧ ((Hier.clsAt (Hier.Stale.boot .hints hTyped 1 (Hier.initSt hTyped)) 1).mdata.map (·.map (·.ty))) = some [0]
+      ∧ ((Hier.clsAt (Hier.eager hTyped) 1).mdata.map (·.map (·.ty))) = some [2]
+      ∧ Hier.Stale.boot .hints hTyped 1 (Hier.Stale.boot .hints hTyped 0 (Hier.initSt hTyped)) = Hier.eager hTyped
+      ∧ Hier.boot hTyped 1 (Hier.initSt hTyped) = Hier.eager hTyped := by decide
+
+/-- The same for class attribute values looked up in front of the parents' bootstrap: the child would find
+the parent's not yet consumed `Attr(...)` declaration, lift it (becoming the owner, `repr=False`) and store
+the default on itself, where the eager hierarchy sees the parent's consumed plain default. -/
+theorem stale_vals_lifts_parent_decl :
+    Hier.Stale.boot .vals hDecl 1 (Hier.initSt hDecl) ≠ Hier.eager hDecl
+      ∧ (Hier.clsAt (Hier.Stale.boot .vals hDecl 1 (Hier.initSt hDecl)) 1).dict = [(0, .plain (some 1))]
+      ∧ (Hier.clsAt (Hier.eager hDecl) 1).dict = []
+      ∧ Hier.boot hDecl 1 (Hier.initSt hDecl) = Hier.eager hDecl := by decide
+
+/-- non-vacuity: the eager `hTyped` — both classes own `x: float`, wrote it into their `__annotations__`,
+have their own default and helpers -/
+example : Hier.eager hTyped =
+    [⟨[(0, 2)], [(0, .plain (some 5))], some [⟨0, 2, ⟨some 5, false, true, true⟩, 0⟩], [0]⟩,
+     ⟨[(0, 2)], [(0, .plain (some 9))], some [⟨0, 2, ⟨some 9, false, true, true⟩, 1⟩], [0]⟩] := by decide
+
+/-- non-vacuity: a subclass-first use of a three-level chain bootstraps all three, root first; the middle
+class overrides the inherited default only (keeps `repr=False`, owner stays the root) -/
+example :
+    let chain : List Hier.HBody :=
+      [⟨[(0, 1)], [(0, .attr ⟨some 1, false, false, true⟩)], [], none⟩, ⟨[], [(0, .plain (some 7))], [], none⟩,
+       ⟨[(1, 3)], [], [], none⟩]
+    Hier.runTrigs chain [2, 0] (Hier.initSt chain) = Hier.eager chain
+      ∧ (Hier.clsAt (Hier.eager chain) 2).mdata
+          = some [⟨0, 1, ⟨some 7, false, false, true⟩, 0⟩, ⟨1, 3, ⟨none, false, true, true⟩, 2⟩] := by decide
 
 end SpecVerif.Props.C19
